@@ -1557,7 +1557,7 @@ def tree_cases(draw, max_depth=4, keyp=8):
     if wrap not in ("none", "ma"):
         if draw(st.integers(0, 9)) >= 7:
             # MassAction (UnaryWrapper) multiplied with / divided by a literal: ma/1, 1/ma, ma*1, 0*ma, 2/ma ...
-            b = _lit(S, LIT_ANY if wrap in ("ma*x", "x*ma") else LIT_POS)
+            b = _lit(S, LIT_ANY if wrap in ("ma*x", "x*ma") else LIT_NONZERO)
         else:
             b = _ptree(S, draw(st.integers(0, 2)), LEAF_CLASSES)
     return _finish(draw, S, root, wrap, b, rxn, env)
